@@ -16,6 +16,7 @@ package main
 import (
 	"fmt"
 	"math"
+	"math/big"
 	"sort"
 	"strings"
 
@@ -236,6 +237,9 @@ func runCase(h *verifx.H, ci int, r *verifx.Rng, c06 bool) {
 	for _, md := range metrics {
 		nRows := []int{1, 1, 2, 3, 4, 6, 8, 12, 20}[r.Intn(9)]
 		sizeBase := []int{1, 4, 10, 28, 60, 200}[r.Intn(6)]
+		if mode == "det" && sizeBase == 1 && !r.Chance(1, 8) {
+			sizeBase = 2 // the budget bound of deterministic selection is stated for rows of at least 2 bytes
+		}
 		for k := 0; k < nRows; k++ {
 			it := &data_model.MultiItem{MetricMeta: md.itemMeta}
 			it.Key.Metric = md.id
@@ -795,18 +799,55 @@ func oracleC06(h *verifx.H, mode string, cfg data_model.SamplerConfig, rows []*r
 			plain = false
 		}
 	}
-	// deterministic selection: kept size never exceeds the budget (rows of equal size, as in the repo's own tests)
-	if mode == "det" && uniformSize >= 2 && plain {
-		var kept int64
+	// deterministic selection never exceeds the budget — judged in the form the code guarantees for rows of ANY size
+	// (Lean: det_leaf_count_le / det_kept_le_budget): every leaf (metric x fair key) keeps at most len/sf ROWS, so with
+	// each kept row counted at the average row size of its leaf the total is at most budget + fixed budgets in force.
+	// For rows of one size per metric this is the kept size in bytes. Preconditions as in the theorem: rows >= 2 bytes,
+	// no SampleKeepSingle, no NoSampleAgent in effect.
+	minSize := 1 << 30
+	for _, rw := range live {
+		minSize = min(minSize, rw.size)
+	}
+	if mode == "det" && plain && minSize >= 2 {
+		type leafKey struct {
+			metric int32
+			fk     [3]int32
+		}
+		type leafAcc struct{ n, kept, size int64 }
+		leaves := map[leafKey]*leafAcc{}
 		for _, rw := range live {
+			k := leafKey{metric: rw.metric}
+			if cfg.SampleKeys {
+				for j := 0; j < len(rw.fki) && j < 3; j++ {
+					if x := rw.fki[j]; 0 <= x && x < len(rw.item.Key.Tags) {
+						k.fk[j] = rw.item.Key.Tags[x]
+					}
+				}
+			}
+			l := leaves[k]
+			if l == nil {
+				l = &leafAcc{}
+				leaves[k] = l
+			}
+			l.n++
+			l.size += int64(rw.size)
 			if rw.nKeep == 1 {
-				kept += int64(rw.size)
+				l.kept++
 			}
 		}
-		h.Stat("oracle.detBudget", 1)
-		if kept > budget+fixedBudgetSum {
-			h.Viol("det-kept-size-over-budget", "deterministic selection kept %d bytes > budget %d + fixed budgets %d", kept, budget, fixedBudgetSum)
+		cost := new(big.Rat)
+		for _, l := range leaves {
+			cost.Add(cost, big.NewRat(l.kept*l.size, l.n))
 		}
+		h.Stat("oracle.detBudget", 1)
+		if uniformSize == 0 {
+			h.Stat("oracle.detBudget.mixedSizes", 1)
+		}
+		if cost.Cmp(big.NewRat(budget+fixedBudgetSum, 1)) > 0 {
+			h.Viol("det-kept-cost-over-budget", "deterministic selection kept %s bytes (kept rows x average row size of their leaf) > budget %d + fixed budgets %d", cost.FloatString(2), budget, fixedBudgetSum)
+		}
+	} else if mode == "det" {
+		h.Stat("oracle.detBudget.skipped", 1)
 	}
 	// quota mode: proportional inside a metric, sum within the budget (+1 per randomly rounded-up group budget)
 	if mode == "quota" {
